@@ -4,7 +4,7 @@ import operator
 
 from .. import containers as C
 from ..containers import _Ctx, SimDict, SimList, SimObj, SimFuncs, raw_get, raw_items
-from .model import prefixes, path_str
+from .model import prefixes, path_str, step_kind
 
 _REAL_BIN = {
     "+": operator.add, "-": operator.sub, "*": operator.mul, "/": operator.truediv,
@@ -37,6 +37,9 @@ def rkey(kind, key):
     if kind == "n":
         import numpy as np
         return np.int64(key)
+    if kind == "s":
+        import numpy as np
+        return np.str_(key)
     return key
 
 
@@ -51,13 +54,13 @@ def user_get(roots, path):
     """Read a location the way user code does (logged, faultable)."""
     c = _nav(roots, path[:-1])
     kind, key = path[-1]
-    return c[rkey(kind, key)] if kind in ("i", "n") else getattr(c, key)
+    return c[rkey(kind, key)] if kind in ("i", "n", "s") else getattr(c, key)
 
 
 def user_set(roots, path, v):
     c = _nav(roots, path[:-1])
     kind, key = path[-1]
-    if kind in ("i", "n"):
+    if kind in ("i", "n", "s"):
         c[rkey(kind, key)] = v
     else:
         setattr(c, key, v)
@@ -114,7 +117,7 @@ class World:
     def _mk(self, ctype, children, path):
         items = []
         for key, node in children:
-            kind = "a" if ctype == "obj" else "i"
+            kind = step_kind(ctype)
             if node[0] == "leaf":
                 items.append((key, node[2]))
             else:
@@ -122,7 +125,7 @@ class World:
         return self._new_container(ctype, items, path)
 
     def _new_container(self, ctype, items, path):
-        if ctype == "dict":
+        if ctype in ("dict", "npdict"):
             c = SimDict(items)
         elif ctype in ("list", "nplist"):
             c = SimList([v for _, v in items])
@@ -151,7 +154,8 @@ class World:
     def _index_sids(self, c, path):
         sid = object.__getattribute__(c, "_sid")
         self.sidpath[sid] = path
-        kind = "a" if isinstance(c, SimObj) else "i"
+        kind = step_kind(self.spec.containers.get(path) or self.spec.root_mode.get(path[0], (None, None))[1]) \
+            if len(path) > 1 or path[0] in self.spec.root_mode else ("a" if isinstance(c, SimObj) else "i")
         for k, v in raw_items(c):
             if isinstance(v, (SimDict, SimList, SimObj)):
                 self._index_sids(v, path + ((kind, k),))
@@ -162,7 +166,7 @@ class World:
         if path[0] in self.wrap:
             r = r[self.wrap[path[0]]]
         for kind, key in path[1:]:
-            if kind in ("i", "n"):
+            if kind in ("i", "n", "s"):
                 r = r[rkey(kind, key)]
             elif kind == "a":
                 r = getattr(r, key)
@@ -226,7 +230,7 @@ class World:
         if base is None:
             return None
         ctype = self.spec.containers.get(base) or self.spec.root_mode.get(base[0], (None, None))[1]
-        kind = "a" if ctype == "obj" else ("n" if ctype == "nplist" else "i")
+        kind = step_kind(ctype)
         return base + ((kind, ev[2]),)
 
     # ---- assignment styles -----------------------------------------------------
